@@ -29,8 +29,8 @@ def shapedE : Expr → Bool
   | .host _ args | .call _ args | .ctor _ args | .list args => shapedEs args
   | .record perm fs => permOk perm (lenEs fs) && shapedEs fs
   | .bin _ l r | .and l r | .or l r | .concat l r => shapedE l && shapedE r
-  | .not e | .neg e | .assign _ e | .ret e | .accept e | .reject e | .try e | .some e | .field e _ => shapedE e
-  | .cassign op _ e => op.isArith && shapedE e
+  | .not e | .neg e | .assign _ e | .assignF _ _ e | .ret e | .accept e | .reject e | .try e | .some e | .field e _ => shapedE e
+  | .cassign op _ e | .cassignF op _ _ e => op.isArith && shapedE e
   | .ite c t e => shapedE c && shapedB t && shapedB e
   | .if1 c t => shapedE c && shapedB t
   | .while c b => shapedE c && shapedB b
@@ -111,6 +111,13 @@ theorem lowerE_total : ∀ (e : Expr) (c : Nat), shapedE e = true → (lowerE e 
   | .assign x e, c, h => by
     obtain ⟨⟨ce, ve, c1⟩, h1⟩ := Option.isSome_iff_exists.mp (lowerE_total e c (by simpa [shapedE] using h))
     simp [lowerE, h1]
+  | .assignF x i e, c, h => by
+    obtain ⟨⟨ce, ve, c1⟩, h1⟩ := Option.isSome_iff_exists.mp (lowerE_total e c (by simpa [shapedE] using h))
+    simp [lowerE, h1]
+  | .cassignF op x i e, c, h => by
+    simp [shapedE] at h
+    obtain ⟨⟨ce, ve, c1⟩, h1⟩ := Option.isSome_iff_exists.mp (lowerE_total e (c + 1) h.2)
+    simp [lowerE, h.1, h1]
   | .ret e, c, h => by
     obtain ⟨⟨ce, ve, c1⟩, h1⟩ := Option.isSome_iff_exists.mp (lowerE_total e c (by simpa [shapedE] using h))
     simp [lowerE, h1]
